@@ -8,6 +8,12 @@ One clause only is decided; everything else in C11 quantifies over run-time mixi
               whole column in one shift.  Checked for every in-place shift loop over the solution store (ADVECTION, TRANSPORT
               column shift), symbolically in the shift d (1, or +-ishift); the loop must also start at the downstream end
               (count_ad_cells / last_c) and not exclude the first cell.
+  C11.mixwater  "element amounts are moved, never created": every mixing recipe the transport code GENERATES itself (the
+              mobile/stagnant exchange recipes of -stagnant 1 exch_f th_m th_im, the dispersion recipes of init_mix) must hand
+              each cell back its own water mass: the factors, weighted by the water of the cell they draw from, sum to the
+              water of the target cell - as an exact rational identity in the code's own symbols (mix_f_m, water_m, m[i], ...).
+              Cells whose water is not measured by the code weigh 1 (equal cells): the identity is then "the factors sum to
+              1", which is also the convexity (bounded mixing) condition on generated recipes.
 Not decided: conservation of the column inventory, mixing-factor arithmetic, convexity (bounded mixing), stagnant zones,
 multicomponent diffusion, boundary conditions.
 """
@@ -79,7 +85,93 @@ def update_of(loop, var):
     return None
 
 
+def mixwater_rule(P, R):
+    from .. import ratfun as RF
+    R.rule("C11.mixwater", "generated mixing recipes return each cell its own water mass (water-weighted factor sum = water of the target cell)", minimum=4)
+    n = 0
+    for key, f in sorted(P.functions.items()):
+        if not f["q"].startswith("Phreeqc::"):
+            continue
+        # water symbols: local = Rxn_find(Rxn_solution_map, K)->Get_mass_water()
+        water = {}
+        for x in T.walk(f["body"]):
+            if x[0] == "Bin" and x[2] == "=" and T.strip_casts(x[3])[0] == "Ref":
+                r = T.strip_casts(x[4])
+                if r[0] == "Call" and T.callee_name(r) == "Get_mass_water" and T.is_node(r[3]):
+                    for c in T.calls(r[3]):
+                        if T.callee_name(c) == "Rxn_find" and len(c[4]) == 2 and T.text(c[4][0]).endswith("Rxn_solution_map"):
+                            water[T.text(c[4][1]).replace(" ", "")] = T.strip_casts(x[3])[3]
+        for blk in T.walk(f["body"]):
+            if blk[0] != "Compound":
+                continue
+            mixes = [d[0] for s_ in blk[2] if T.is_node(s_) and s_[0] == "Decl" for d in s_[2] if "cxxMix" in d[1] and "*" not in d[1] and "&" not in d[1]]
+            for mv in mixes:
+                target, terms, stored = None, [], False
+                for s_ in blk[2]:
+                    if not T.is_node(s_):
+                        continue
+                    for c in ([s_] if s_[0] == "Call" else []):
+                        if T.is_node(c[3]) and T.text(c[3]) == mv:
+                            if T.callee_name(c) == "Set_n_user" and len(c[4]) == 1:
+                                target = T.text(c[4][0]).replace(" ", "")
+                            if T.callee_name(c) == "Add" and len(c[4]) == 2:
+                                terms.append((T.text(c[4][0]).replace(" ", ""), c[4][1], c[1]))
+                    if s_[0] in ("Bin", "Call") and any(y[0] == "Ref" and y[2] == "local" and y[3] == mv for y in T.walk(s_)) and "_mix_map" in T.text(s_):
+                        stored = True
+                if target is None or not terms or not stored:
+                    continue
+                n += 1
+                inst = "%s:mix[%s]@%d" % (f["q"].split("::")[-1], target, terms[0][2])
+                where = dict(file=f["file"], line=terms[0][2], function=f["q"])
+
+                def sym(nd):
+                    nd0 = T.strip_casts(nd)
+                    if nd0[0] == "Ref" and nd0[2] in ("local", "param"):
+                        return nd0[3]
+                    if nd0[0] == "Member":
+                        return T.text(nd0).replace(" ", "")
+                    if nd0[0] == "Index":
+                        return T.text(nd0).replace(" ", "")
+                    return None
+
+                def conv(nd):
+                    nd0 = T.strip_casts(nd)
+                    if nd0[0] == "Index":
+                        return RF.Rat.sym(T.text(nd0).replace(" ", ""))
+                    return RF.from_tree(nd0, sym)
+                try:
+                    tot = RF.Rat.const(0)
+                    for cell, e, line in terms:
+                        w = RF.Rat.sym(water[cell]) if cell in water else RF.Rat.const(1)
+                        tot = tot + conv_idx(e, sym, RF) * w
+                except (RF.NotRational, ZeroDivisionError) as ex:
+                    R.anchor_missing("C11.mixwater", "%s: factor not rational (%s)" % (inst, ex))
+                    continue
+                want = RF.Rat.sym(water[target]) if target in water else RF.Rat.const(1)
+                if tot.same(want):
+                    R.ok("C11.mixwater", inst, "sum of water-weighted factors = %s" % ("water of the target cell (%s)" % water[target] if target in water else "1"))
+                else:
+                    R.violation("C11.mixwater", inst, "the generated recipe for cell %s does not return the cell its own water: sum over sources of factor * water = %s, expected %s - "
+                                "water and every element are created or lost at each mixing step" % (target, " + ".join("(%s)*w[%s]" % (T.text(e)[:40], c_) for c_, e, l_ in terms), want), **where)
+    if n < 4:
+        R.anchor_missing("C11.mixwater", "only %d generated mixing recipes found (expected the two stagnant and two dispersion recipes)" % n)
+
+
+def conv_idx(nd, sym, RF):
+    """ratfun conversion where array elements m[i] are atomic symbols"""
+    nd = T.strip_casts(nd)
+    if T.is_node(nd) and nd[0] == "Index":
+        return RF.Rat.sym(T.text(nd).replace(" ", ""))
+    if T.is_node(nd) and nd[0] == "Bin" and nd[2] in ("+", "-", "*", "/"):
+        a, b = conv_idx(nd[3], sym, RF), conv_idx(nd[4], sym, RF)
+        return a + b if nd[2] == "+" else a - b if nd[2] == "-" else a * b if nd[2] == "*" else a / b
+    if T.is_node(nd) and nd[0] == "Un" and nd[2] == "-":
+        return -conv_idx(nd[3], sym, RF)
+    return RF.from_tree(nd, sym)
+
+
 def run(P, R, tier):
+    mixwater_rule(P, R)
     R.undecided += ["conservation of the column inventory over shifts (mixing-factor arithmetic)", "bounded mixing / convexity",
                     "stagnant zones, multicomponent diffusion, boundary conditions, reactive solids"]
     R.rule("C11.shift", "in-place advective shift loops over the solution store walk against the copy direction (each source is read before it is overwritten)", minimum=2)
